@@ -15,7 +15,7 @@ first ends (its `fs`/`channel`/`metadata` equality checks are not modelled: a st
 carries one annotation record).  Core Lean only.
 
 `downsample`, `decimate`, `iirfilter`, `rms` are modelled **as repaired** by
-notes/C12_fix_1..4.diff (see notes/C12.md).
+notes/C12_fix_1..5.diff (see notes/C12.md).
 -/
 namespace Psi.Stages
 
@@ -144,7 +144,7 @@ def downsampleStep (divFs : ρ → Nat → ρ) (twoD : Bool) (q : Nat) (st : Dow
     let res := { res with s0 := s0 }
     .ok (if twoD || res.len ≠ 0 then [res] else [], { rem := rem, s0 := some (s0 + res.len) })
 
-/-! ### Mealy machines (`scipy.signal.lfilter` with carried `zi`) -/
+/-! ### Mealy machines (what `scipy.signal.lfilter` with carried `zi` computes on non-empty input) -/
 
 structure Mealy (α β S : Type) where
   step : S → α → β × S
@@ -156,7 +156,14 @@ def Mealy.run (m : Mealy α β S) : S → List α → List β × S
     let r' := m.run r.2 l
     (r.1 :: r'.1, r'.2)
 
-/-! ### iirfilter (as repaired: channel and metadata are passed on) -/
+/-- `signal.lfilter(b, a, y, zi=z, axis=-1)` is a parameter `lf : S → List α → List β × S` (output, final
+state).  SciPy leaves the final state **undefined for an empty `y`** (it returns uninitialised memory), so the
+stages keep the current state in that case (`if y.shape[-1] > 0: zo = zf`, notes/C12_fix_5.diff). -/
+def lfGuard (lf : S → List α → List β × S) (z : S) (y : List α) : List β × S :=
+  let r := lf z y
+  (r.1, if y.length ≠ 0 then r.2 else z)
+
+/-! ### iirfilter (as repaired: channel and metadata are passed on; state kept over an empty chunk) -/
 
 /-- `init x0` is `lfilter_zi(b, a) * y[..., :1]` of the first chunk; an empty first chunk cannot be
 broadcast against `zi` (`ValueError`). -/
@@ -166,27 +173,28 @@ def iirInit (init : α → S) (st : Option S) (y : List α) : Except Err S :=
   | none, [] => .error .valueError
   | none, x0 :: _ => .ok (init x0)
 
-def iirStep (m : Mealy α β S) (init : α → S) (st : Option S) (y : PD α ρ χ μ) :
+def iirStep (lf : S → List α → List β × S) (init : α → S) (st : Option S) (y : PD α ρ χ μ) :
     Except Err (List (PD β ρ χ μ) × Option S) :=
   match iirInit init st y.data with
   | .error e => .error e
   | .ok s =>
-    let r := m.run s y.data
+    let r := lfGuard lf s y.data
     .ok ([y.withData r.1], some r.2)
 
-/-! ### decimate (as repaired: only new samples are filtered, the filtered remainder is kept) -/
+/-! ### decimate (as repaired: only new samples are filtered, the filtered remainder is kept; state kept
+over an empty chunk) -/
 
 structure DecSt (β ρ χ μ S : Type) where
   zf : S
   rem : Option (PD β ρ χ μ)
   s0 : Int
 
-def decimateStep (m : Mealy α β S) (zi : S) (divFs : ρ → Nat → ρ) (q : Nat)
+def decimateStep (lf : S → List α → List β × S) (zi : S) (divFs : ρ → Nat → ρ) (q : Nat)
     (st : Option (DecSt β ρ χ μ S)) (y : PD α ρ χ μ) :
     Except Err (List (PD β ρ χ μ) × Option (DecSt β ρ χ μ S)) :=
   if q = 0 then .error .diverges else
   let st := match st with | some s => s | none => { zf := zi, rem := none, s0 := y.s0 }
-  let r := m.run st.zf y.data
+  let r := lfGuard lf st.zf y.data
   let yf : PD β ρ χ μ := y.withData r.1
   match catOpt st.rem yf with
   | .error e => .error e
